@@ -567,6 +567,8 @@ class SingleWindowSplitter(BaseSplitter):
         -------
         n_splits : int
         """
+        _check_fh(self.fh)
+        check_window_length(self.window_length)
         return 1
 
     def get_cutoffs(self, y=None):
